@@ -31,6 +31,7 @@ import (
 	"github.com/koordinator-sh/koordinator/apis/extension"
 	slov1alpha1 "github.com/koordinator-sh/koordinator/apis/slo/v1alpha1"
 	"github.com/koordinator-sh/koordinator/pkg/slo-controller/noderesource/framework"
+	"github.com/koordinator-sh/koordinator/pkg/util/sloconfig"
 	"github.com/koordinator-sh/koordinator/pkg/verifkit/vk"
 )
 
@@ -57,7 +58,7 @@ type c09Pod struct {
 	Containers []c09Container
 	HasMetric  bool
 	Use        [2]int64 // reported usage (milli-cpu, bytes)
-	NUMA       []int    // zone ids of the pod's NUMA allocation annotation (valid, unique), nil = none
+	NUMA       []int    // NUMA ids of the pod's allocation annotation (unique; may name ids that do not exist on the node), nil = none
 }
 
 type c09Usage struct {
@@ -81,6 +82,62 @@ type c09Case struct {
 	HostApps   []c09Usage
 	HasNRT     bool
 	Zones      [][2]int64 // zone allocatable: milli-cpu, bytes
+	// ViaConfig: the strategy handed to the plugin is resolved the way the controller does it,
+	// sloconfig.GetNodeColocationStrategy(cluster config, node), so that the per-node ratio labels apply.
+	ViaConfig bool
+	Label     [2]c09Label // node.koordinator.sh/cpu-reclaim-ratio, node.koordinator.sh/memory-reclaim-ratio
+}
+
+// c09Label is a per-node ratio label. Documented rule (apis/extension/node_colocation.go, sloconfig.getNodeReclaimPercent):
+// the value is a float; a parsable value >= 0 takes precedence over the configured percentage (percent = ratio*100, no upper
+// limit); an illegal value (unparsable or negative) is ignored and the configured percentage stays.
+type c09Label struct {
+	Set      bool
+	Str      string
+	Valid    bool
+	Num, Den int64 // exact value of a valid label
+}
+
+// validIDs returns the pod's NUMA ids that exist on a node with nz zones (documented in GetPodNUMARequestAndUsage:
+// "the invalid allocated NUMA ids will be ignored"; with no valid id the pod is spread over all zones).
+func (p *c09Pod) validIDs(nz int) []int {
+	var out []int
+	for _, z := range p.NUMA {
+		if z >= 0 && z < nz {
+			out = append(out, z)
+		}
+	}
+	return out
+}
+
+// thr is the effective reclaim threshold percent of resource r as an exact rational.
+func (cs *c09Case) thr(r int) *big.Rat {
+	if cs.ViaConfig && cs.Label[r].Set && cs.Label[r].Valid {
+		return big.NewRat(cs.Label[r].Num*100, cs.Label[r].Den)
+	}
+	return big.NewRat(cs.Thr[r], 1)
+}
+
+var c09LabelPool = []c09Label{
+	{true, "1", true, 1, 1}, {true, "1.0", true, 1, 1}, {true, "0.65", true, 65, 100}, {true, "0.6", true, 6, 10},
+	{true, "0.05", true, 5, 100}, {true, "0.001", true, 1, 1000}, {true, "0.999", true, 999, 1000}, {true, "0.355", true, 355, 1000},
+	{true, "1.5", true, 3, 2}, {true, "2", true, 2, 1}, {true, "1.01", true, 101, 100},
+	{true, "-0.1", false, 0, 1}, {true, "-1", false, 0, 1}, {true, "-0.0001", false, 0, 1},
+	{true, "abc", false, 0, 1}, {true, "", false, 0, 1}, {true, "50%", false, 0, 1}, {true, "0,5", false, 0, 1},
+}
+
+func c09GenLabel(t *rapid.T, label string) c09Label {
+	switch rapid.IntRange(0, 9).Draw(t, label+"Kind") {
+	case 0, 1, 2:
+		return c09Label{}
+	case 3:
+		return rapid.SampledFrom([]c09Label{{true, "0", true, 0, 1}, {true, "0.0", true, 0, 1}, {true, "0.00", true, 0, 1}}).Draw(t, label)
+	case 4, 5, 6:
+		n := rapid.Int64Range(1, 99).Draw(t, label)
+		return c09Label{true, fmt.Sprintf("0.%02d", n), true, n, 100}
+	default:
+		return rapid.SampledFrom(c09LabelPool).Draw(t, label)
+	}
 }
 
 func (cs *c09Case) clone() *c09Case {
@@ -294,6 +351,11 @@ func c09GenCase(t *rapid.T) *c09Case {
 		cs.Sys[r] = c09Amount(t, "sys"+c09ResName[r], cs.Cap[r]/4)
 	}
 	cs.DegradeMin = rapid.Int64Range(1, 120).Draw(t, "degradeMin")
+	cs.ViaConfig = rapid.Bool().Draw(t, "viaConfig")
+	if cs.ViaConfig {
+		cs.Label[0] = c09GenLabel(t, "labelCPURatio")
+		cs.Label[1] = c09GenLabel(t, "labelMemRatio")
+	}
 
 	// zones
 	nz := rapid.SampledFrom([]int{-1, 0, 1, 2, 2, 3, 4}).Draw(t, "zones")
@@ -398,6 +460,29 @@ func c09GenCase(t *rapid.T) *c09Case {
 			if len(p.NUMA) == 0 {
 				p.NUMA = []int{rapid.IntRange(0, len(cs.Zones)-1).Draw(t, "numaOne")}
 			}
+			// ids that do not exist on this node (stale annotation, topology changed): mixed with valid ones, or all invalid
+			bad := func() {
+				ids := []int{len(cs.Zones), len(cs.Zones) + 1, len(cs.Zones) + 2, 7, -1}
+				k := rapid.IntRange(1, 2).Draw(t, "numaBadCount")
+				off := rapid.IntRange(0, len(ids)-1).Draw(t, "numaBadFirst")
+				for j := 0; j < k; j++ {
+					id := ids[(off+j)%len(ids)]
+					dup := false
+					for _, z := range p.NUMA {
+						dup = dup || z == id
+					}
+					if !dup {
+						p.NUMA = append(p.NUMA, id)
+					}
+				}
+			}
+			switch rapid.IntRange(0, 5).Draw(t, "numaInvalid") {
+			case 4:
+				bad()
+			case 5:
+				p.NUMA = nil
+				bad()
+			}
 		}
 		cs.Pods = append(cs.Pods, p)
 	}
@@ -470,8 +555,6 @@ func (cs *c09Case) build(updateTime *metav1.Time) *c09Objects {
 		v := cs.PctCap[1]
 		st.BatchMemoryThresholdPercent = &v
 	}
-	o.strategy = st
-
 	node := &corev1.Node{}
 	node.Name = c09NodeName
 	node.Status.Capacity = c09RL(cs.Cap)
@@ -497,6 +580,20 @@ func (cs *c09Case) build(updateTime *metav1.Time) *c09Objects {
 		node.Annotations = map[string]string{extension.AnnotationNodeReservation: string(b)}
 	}
 	o.node = node
+	o.strategy = st
+	if cs.ViaConfig {
+		keys := [2]string{extension.LabelCPUReclaimRatio, extension.LabelMemoryReclaimRatio}
+		for r := 0; r < 2; r++ {
+			if cs.Label[r].Set {
+				if node.Labels == nil {
+					node.Labels = map[string]string{}
+				}
+				node.Labels[keys[r]] = cs.Label[r].Str
+			}
+		}
+		// what NodeResourceReconciler.calculateNodeResource does with the cluster configuration
+		o.strategy = sloconfig.GetNodeColocationStrategy(&configuration.ColocationCfg{ColocationStrategy: *st}, node)
+	}
 
 	pl := &corev1.PodList{}
 	nm := &slov1alpha1.NodeMetric{}
@@ -703,7 +800,7 @@ func (cs *c09Case) bound(r, zi int) c09Bound {
 	}
 	share := big.NewRat(1, div)
 	c := c09R(capacity)
-	margin := new(big.Rat).Mul(c, big.NewRat(100-cs.Thr[r], 100))
+	margin := new(big.Rat).Mul(c, new(big.Rat).Quo(new(big.Rat).Sub(big.NewRat(100, 1), cs.thr(r)), big.NewRat(100, 1)))
 	avail := new(big.Rat).Sub(c, margin)
 
 	reserved := cs.KubeRes[r]
@@ -733,11 +830,11 @@ func (cs *c09Case) bound(r, zi int) c09Bound {
 			continue
 		}
 		f := share
-		if zi >= 0 && len(p.NUMA) > 0 {
+		if valid := p.validIDs(len(cs.Zones)); zi >= 0 && len(valid) > 0 {
 			f = new(big.Rat)
-			for _, z := range p.NUMA {
+			for _, z := range valid {
 				if z == zi {
-					f = big.NewRat(1, int64(len(p.NUMA)))
+					f = big.NewRat(1, int64(len(valid)))
 				}
 			}
 		}
@@ -883,8 +980,13 @@ func TestVerifC09BatchBound(t *testing.T) {
 					c.ClassIf(p.Use[0] > p.req(0), "lse-usage-over-request")
 				}
 			}
-			if len(p.NUMA) > 0 && len(cs.Zones) > 1 && len(p.NUMA) < len(cs.Zones) {
+			if v := p.validIDs(len(cs.Zones)); len(v) > 0 && len(cs.Zones) > 1 && len(v) < len(cs.Zones) {
 				numaBound = true
+			}
+			if len(p.NUMA) > 0 && len(cs.Zones) > 0 {
+				v := p.validIDs(len(cs.Zones))
+				c.ClassIf(len(v) > 0 && len(v) < len(p.NUMA), "numa-ids-mixed-valid-invalid")
+				c.ClassIf(len(v) == 0, "numa-ids-all-invalid")
 			}
 		}
 		danglingHP, hostHP := false, false
@@ -902,7 +1004,19 @@ func TestVerifC09BatchBound(t *testing.T) {
 		c.ClassIf(danglingHP, "dangling-hp-metric")
 		c.ClassIf(hostHP, "hostapp-hp")
 		c.ClassIf(numaBound, "numa-bound-hp-pod")
-		c.ClassIf(cs.Thr[0] > 100 || cs.Thr[1] > 100, "threshold>100")
+		hundred := big.NewRat(100, 1)
+		c.ClassIf(cs.thr(0).Cmp(hundred) > 0 || cs.thr(1).Cmp(hundred) > 0, "threshold>100")
+		c.ClassIf(cs.ViaConfig, "strategy-resolved-via-config")
+		for r := 0; r < 2; r++ {
+			if l := cs.Label[r]; cs.ViaConfig && l.Set {
+				c.ClassIf(l.Valid && l.Num == 0, "label-ratio-zero")
+				c.ClassIf(l.Valid && l.Num == 0 && cs.Thr[r] > 0, "label-ratio-zero-overrides-positive-cluster-threshold")
+				c.ClassIf(l.Valid && l.Num > 0 && l.Num < l.Den, "label-ratio-in-(0,1)")
+				c.ClassIf(l.Valid && l.Num == l.Den, "label-ratio-one")
+				c.ClassIf(l.Valid && l.Num > l.Den, "label-ratio->1")
+				c.ClassIf(!l.Valid, "label-ratio-illegal(ignored)")
+			}
+		}
 		c.ClassIf(cs.AnnoRes[0] >= 0 || cs.AnnoRes[1] >= 0 || cs.AnnoCPUs > 0, "annotation-reservation")
 		c.Class(fmt.Sprintf("zones-published=%d", len(pub.zones)))
 		c.ClassIf(cs.HasNRT && len(cs.Zones) == 0, "nrt-without-zones")
@@ -973,7 +1087,7 @@ func c09Raise(t *rapid.T, base, mut *c09Case) c09Mutation {
 	if base.KubeRes[0] < base.Cap[0] || base.KubeRes[1] < base.Cap[1] {
 		cands = append(cands, cand{"kubelet-reservation", nil})
 	}
-	if base.Thr[0] > 0 || base.Thr[1] > 0 {
+	if base.thr(0).Sign() > 0 || base.thr(1).Sign() > 0 {
 		cands = append(cands, cand{"safety-margin", nil})
 	}
 	if len(withMetric) > 0 {
@@ -1037,12 +1151,27 @@ func c09Raise(t *rapid.T, base, mut *c09Case) c09Mutation {
 		mut.KubeRes[r] += d
 		m.desc = fmt.Sprintf("kubelet reservation %s +%d", c09ResName[r], d)
 	case "safety-margin":
-		if base.Thr[r] <= 0 {
+		if base.thr(r).Sign() <= 0 {
 			r = 1 - r
 		}
-		d := rapid.Int64Range(1, base.Thr[r]).Draw(t, "deltaThr")
-		mut.Thr[r] -= d
-		m.desc = fmt.Sprintf("%s reclaim threshold %d -> %d (margin grows)", c09ResName[r], base.Thr[r], mut.Thr[r])
+		if l := base.Label[r]; base.ViaConfig && l.Set && l.Valid { // the label is the effective threshold: lower the label
+			n := int64(0) // e.g. 0.001 -> 0
+			if pct := l.Num * 100 / l.Den; pct > 0 {
+				n = rapid.Int64Range(0, pct-1).Draw(t, "labelPercent")
+			}
+			mut.Label[r] = c09Label{true, fmt.Sprintf("0.%02d", n), true, n, 100}
+			if n >= 100 {
+				mut.Label[r].Str = fmt.Sprintf("%d.%02d", n/100, n%100)
+			}
+			if n == 0 && rapid.Bool().Draw(t, "plainZero") {
+				mut.Label[r].Str = "0"
+			}
+			m.desc = fmt.Sprintf("%s reclaim ratio label %q -> %q (margin grows)", c09ResName[r], l.Str, mut.Label[r].Str)
+		} else {
+			d := rapid.Int64Range(1, base.Thr[r]).Draw(t, "deltaThr")
+			mut.Thr[r] -= d
+			m.desc = fmt.Sprintf("%s reclaim threshold %d -> %d (margin grows)", c09ResName[r], base.Thr[r], mut.Thr[r])
+		}
 	case "pod-usage":
 		i := rapid.SampledFrom(cd.idx).Draw(t, "pod")
 		d := delta(base.Cap[r] / 4)
